@@ -81,7 +81,7 @@ class C06(F.Spec):
             elif a == "timed":
                 ops.append("msg 110 " + set_value(rng.randint(1, 1 << 20), ch, rng.choice([300, 1000, 5000, 60000]), [rng.choice([0, 1, 1])]).hex())
             elif a == "unknown":
-                ops.append("msg 110 " + set_value(rng.randint(1, 1 << 20), rng.choice([n, 9, 200]), 0, [1]).hex())
+                ops.append("msg 110 " + set_value(rng.randint(1, 1 << 20), rng.choice([n, 9, 200, 255, 255]), 0, [1]).hex())
             elif a == "group":
                 ops.append("msg 115 " + group_value(rng.randint(1, 1 << 20), 5, 1, ch, 0, [rng.choice([0, 1])]).hex())
             elif a == "button" and ch < ni:
@@ -175,6 +175,8 @@ class C06(F.Spec):
             his = [e for e in evs if "pin" in e]
             for e in his:
                 k = e["pin"] - 1
+                if not (0 <= k < n):
+                    continue          # a pin that belongs to no relay of the board: reported by the monitor
                 lo = 1 if case.meta["flags"][k] & LO else 0
                 logical = e["out"] ^ lo if e["out"] is not None else None
                 want = ["OUT %d %s %s" % (k, e["out"], logical)]
@@ -204,6 +206,10 @@ class C06(F.Spec):
         accepted = {100: 0, 120: 0, 105: 0}
         wire = {100: 0, 120: 0, 105: 0}
         for (t, evs, out), g in zip(self.walk(case, raw), raw):
+            for e in evs:
+                if "pin" in e and not (1 <= e["pin"] <= n):
+                    fs.append(F.Finding("output-outside-board", "relay_hi was called for pin %d, which is no relay of this board (%s)" % (
+                        e["pin"], " ".join(t[:2]))))
             # wire frames
             for x in g:
                 if x.startswith("SENT 0 "):
